@@ -9,13 +9,22 @@ REVIEWED = os.path.join(VERIF, "reviewed_safe.json")
 
 
 def load_known():
+    """known_findings.json (the committed known-findings file). Entries: {property, key, what, witness}."""
+    out = {}
     if not os.path.exists(KNOWN):
-        return {}
+        return out
     with open(KNOWN) as f:
         d = json.load(f)
-    out = {}
     for e in d.get("findings", []):
         out[(e["property"], e["key"])] = e
+    # per-property staging files (same schema), merged into known_findings.json before release
+    dd = KNOWN[:-5] + ".d"
+    if os.path.isdir(dd):
+        for fn in sorted(os.listdir(dd)):
+            if fn.endswith(".json"):
+                with open(os.path.join(dd, fn)) as f:
+                    for e in json.load(f).get("findings", []):
+                        out[(e["property"], e["key"])] = e
     return out
 
 
